@@ -338,7 +338,29 @@ var (
 func loadCorpus() []*docInfo {
 	corpOnce.Do(func() {
 		corpBy = map[string]*docInfo{}
-		for _, d := range corpus.Invoices() {
+		invoices := corpus.Invoices()
+		// every invoice that lists addons also comes without them (same regime, regime
+		// rules only): what one document's addons require must never carry over to
+		// another document of the same regime corrected later in the same process
+		var stripped []corpus.Doc
+		for _, d := range invoices {
+			if len(d.Addons) == 0 {
+				continue
+			}
+			tree, err := jsontree.Decode(d.JSON)
+			if err != nil {
+				continue
+			}
+			t2, err := jsontree.Delete(tree, "/$addons")
+			if err != nil {
+				continue
+			}
+			d2 := d
+			d2.Path, d2.JSON, d2.Addons = d.Path+"#no-addons", jsontree.Encode(t2), nil
+			stripped = append(stripped, d2)
+		}
+		invoices = append(invoices, stripped...)
+		for _, d := range invoices {
 			di := &docInfo{doc: d}
 			corpList = append(corpList, di)
 			corpBy[d.Path] = di
